@@ -16,6 +16,9 @@ CLAIMED = {
  "C05": ("fault_enumeration", "crash-image enumeration from recorded file-operation traces of generated workloads; every image reopened and compared with the reference prefix states",
          "A generated workload runs once under a recording File wrapper; from the trace, for every crash point, the process-kill image, torn variants of the in-flight write and (syncing on) the power-loss images - unsynced writes applied as subsets of 4096-byte block pieces, exhaustively up to 10 pieces - are built and reopened; the open must succeed and the content must be the reference after a batch prefix no shorter than the last round completed with syncing. Crash points are enumerated exhaustively per trace, block subsets exhaustively when small; traces and masks beyond that are generated.",
          "5.C05"),
+ "C06": ("fault_enumeration", "fault injection through a moss.File wrapper at enumerated / generated file-operation indices of generated workloads, checked against the reference model after every step",
+         "A generated workload runs fault-free once to number its file operations and then once per injected fault (site x kind by operation: open/create, WriteAt error, short write, Sync, Stat x shape: single, burst, persistent until a later step); after every step the collection must equal the reference and the store's snapshot the reference prefix covered by rounds that reported success; after a failed round a copy of the directory must reopen to a prefix no older than before; after faults stop persistence must catch up to the full reference, also after reopen. Sites are enumerated exhaustively (up to 150 per workload) in the thorough tier and sampled in the quick tier.",
+         "5.C06"),
  "C07": ("exploration", "model-based PBT + metamorphic check around compactions detected from Store.Stats deltas",
          "Store-backed histories over all compaction concerns and small level parameters; collection and store content are compared with the reference after every step (so content is identical before and after each compaction); after a full compaction the store snapshot is iterated with IncludeDeletions (no marker, strictly ascending, nothing above segment level 0 at any nesting level); at the end the directory must hold one data file. " + NOTE_SCHED,
          "5.C07"),
